@@ -8,3 +8,6 @@ def check(rep, tier):
     rep.run(rules_exact.run, rep, tier, rules_exact.CLAUSE_PROPS["C11"], which="index")
     from contracts import rules_numeric
     rep.run(rules_numeric.run_accum, rep)
+    from contracts import vspaces, core_backward
+    rep.run(vspaces.run_scalar, rep, tier)
+    rep.run(core_backward.run_proof, rep, tier, which=('backward_pass',))
